@@ -196,6 +196,17 @@ def read_fragment_smiles(smiles_str,
 
     pysmiles.remove_explicit_hydrogens(mol_graph)
 
+    # The hydrogen counts are provisional: pysmiles computed them with
+    # aromatic bonds counted as 1.5, which gives aromatic hetero atoms
+    # that do not take part in a double bond (the sulfur of thiophene,
+    # the oxygen of furan, a substituted pyrrole nitrogen) one hydrogen
+    # too many. Aromatic atoms of the organic subset other than carbon
+    # never carry an implicit hydrogen; it has to be written ([nH]).
+    for node, attrs in mol_graph.nodes(data=True):
+        if attrs.get('aromatic', False) and attrs.get('element') not in ('C', 'H')\
+           and not attrs.get('_atom_str', '[').startswith('['):
+            attrs['hcount'] = 0
+
     # now we reset the hatoms
     nx.set_node_attributes(mol_graph,
                            dict(zip(hatoms_to_keep, len(hatoms_to_keep)*'H')),
